@@ -2,6 +2,1435 @@
 //! name.rs / post.rs / cmap.rs (NameString / CharIter / MacRoman, Post::glyph_name / PString, cmap formats 0/2/6/10/13/14 lookups and iterators)
 //! with Model/HandText.lean (`ht.*` driver commands), on generator-based inputs with truncations and
 //! boundary fields; plus the group's own byte-level oracles.
+//!
+//! The tables are read by the REAL generated readers (`Cmap4::read`, `Cmap::read`, `Name::read`, …); what the
+//! model is given are the arrays / records the real accessors return, so a truncated or field-mutated table
+//! reaches the model exactly as the hand-written code sees it.  `ht.post` and `ht.pstr` hand the raw bytes over
+//! (the model re-reads them with the cursor model).
 use super::*;
+use font_types::{GlyphId, GlyphId16};
+use read_fonts::collections::IntSet;
+use read_fonts::tables::cmap::{Cmap, Cmap12, Cmap14, Cmap4, CmapSubtable, MapVariant, VariationSelector};
+use read_fonts::tables::name::{Encoding, MacRomanMapping, Name};
+use read_fonts::tables::post::{PString, Post, DEFAULT_GLYPH_NAMES};
+use read_fonts::{FontData, FontRead, ReadError};
 
-pub fn run(_ctx: &mut Ctx) {}
+// ------------------------------------------------------------------------------------------------
+// plumbing
+
+/// the variants of a generated input: the base, every prefix, each registered field at boundary values
+fn vars(b: &B, max_prefixes: usize) -> Vec<Vec<u8>> {
+    let n = b.v.len();
+    let mut out = vec![b.v.clone()];
+    if n <= max_prefixes {
+        for c in 0..n {
+            out.push(b.v[..c].to_vec());
+        }
+    } else {
+        // every cut in the head and the tail, every other one in between
+        for c in 0..n {
+            if c < max_prefixes / 2 || c + max_prefixes / 2 >= n || c % 3 == 0 {
+                out.push(b.v[..c].to_vec());
+            }
+        }
+    }
+    for (p, w) in &b.fields {
+        let w = *w as usize;
+        if p + w > n {
+            continue;
+        }
+        let max: u64 = (1u64 << (8 * w)) - 1;
+        let mut cur = 0u64;
+        for k in 0..w {
+            cur = (cur << 8) | b.v[p + k] as u64;
+        }
+        let rest = (n - p) as u64;
+        let mut vals = vec![0u64, 1, max, max - 1, max / 2 + 1, cur.wrapping_add(1), cur.wrapping_sub(1), cur.wrapping_mul(2), n as u64, rest, rest / 2];
+        vals.sort();
+        vals.dedup();
+        for v in vals {
+            let v = v & max;
+            if v == cur {
+                continue;
+            }
+            let mut m = b.v.clone();
+            for k in 0..w {
+                m[p + k] = (v >> (8 * (w - 1 - k))) as u8;
+            }
+            out.push(m);
+        }
+    }
+    out
+}
+
+/// evaluate `f` on the real code; `Some(response)` becomes a correspondence case, a panic a `no-panic`
+/// failure with the input
+fn ask(ctx: &mut Ctx, what: &str, bytes: &[u8], f: impl FnOnce() -> Option<(String, String)>) {
+    PROGRESS.fetch_add(1, Ordering::Relaxed);
+    match catch(f) {
+        Ok(Some((req, resp))) => {
+            ctx.oracle("no-panic", true, String::new, String::new);
+            ctx.case(req, resp);
+        }
+        Ok(None) => ctx.oracle("no-panic", true, String::new, String::new),
+        Err(m) => ctx.oracle("no-panic", false, || format!("{what} {}", hex(bytes)), || format!("panicked: {m}")),
+    }
+}
+
+fn commas<T: std::fmt::Display>(xs: impl Iterator<Item = T>) -> String {
+    let v: Vec<String> = xs.map(|x| x.to_string()).collect();
+    if v.is_empty() {
+        "-".into()
+    } else {
+        v.join(",")
+    }
+}
+
+fn gid_str(g: Option<GlyphId>) -> String {
+    g.map(|g| g.to_u32().to_string()).unwrap_or("n".into())
+}
+
+/// `Drv.C01Iter.fnv` / `summary`
+struct Summary {
+    n: u64,
+    h: u64,
+    first: Option<String>,
+    last: Option<String>,
+}
+
+impl Summary {
+    fn new() -> Self {
+        Summary { n: 0, h: 14695981039346656037, first: None, last: None }
+    }
+    fn row(&mut self, r: &[u64]) {
+        self.n += 1;
+        for x in r {
+            self.h = (self.h ^ *x).wrapping_mul(1099511628211);
+        }
+        let s = r.iter().map(|x| x.to_string()).collect::<Vec<_>>().join(":");
+        if self.first.is_none() {
+            self.first = Some(s.clone());
+        }
+        self.last = Some(s);
+    }
+    fn render(&self) -> String {
+        format!("{} {} {} {}", self.n, self.h, self.first.clone().unwrap_or("-".into()), self.last.clone().unwrap_or("-".into()))
+    }
+}
+
+// ------------------------------------------------------------------------------------------------
+// format 4
+
+#[derive(Clone, Debug)]
+struct Seg {
+    start: u16,
+    end: u16,
+    delta: i16,
+    ro: u16,
+}
+
+fn cmap4_bytes(segs: &[Seg], gids: &[u16], seg_count_x2: Option<u16>) -> B {
+    let n = segs.len();
+    let mut b = B::new();
+    b.u16(4).u16((16 + 8 * n + 2 * gids.len()) as u16).u16(0).f16(seg_count_x2.unwrap_or(2 * n as u16)).u16(0).u16(0).u16(0);
+    for s in segs {
+        b.f16(s.end);
+    }
+    b.u16(0);
+    for s in segs {
+        b.f16(s.start);
+    }
+    for s in segs {
+        b.i16(s.delta);
+    }
+    for s in segs {
+        b.f16(s.ro);
+    }
+    for g in gids {
+        b.u16(*g);
+    }
+    b
+}
+
+fn gen_cmap4(rng: &mut Rng) -> B {
+    let n = 1 + rng.below(6) as usize;
+    let ngid = rng.below(8) as usize;
+    let gids: Vec<u16> = (0..ngid).map(|_| if rng.chance(1, 5) { 0 } else { rng.below(500) as u16 }).collect();
+    let mut segs = vec![];
+    let mut cur = rng.below(40) as u32;
+    for i in 0..n {
+        let last = i == n - 1;
+        let (start, end) = if last && rng.chance(3, 4) { (0xFFFFu32, 0xFFFFu32) } else { (cur, cur + rng.below(12) as u32) };
+        cur = end + 1 + rng.below(20) as u32;
+        let ro = match rng.below(9) {
+            0 | 1 | 2 => 0,
+            3 => 2 * (n - i) as u16,
+            4 => (2 * (n - i) + 2 * ngid) as u16,
+            5 => (2 * (n - i) + 2 * ngid).saturating_sub(2 * (end - start) as usize + 2) as u16,
+            6 => *rng.pick(&[1u16, 2, 3, 0xFFFE, 0xFFFF, 0x8000]),
+            _ => (2 * (n - i) + 2 * rng.below(ngid as u64 + 1) as usize) as u16,
+        };
+        let delta = *rng.pick(&[0i16, 1, -1, 100, i16::MAX, i16::MIN, -29]);
+        segs.push(Seg { start: start.min(0xFFFF) as u16, end: end.min(0xFFFF) as u16, delta, ro });
+    }
+    match rng.below(8) {
+        0 => rng.shuffle(&mut segs),
+        1 => {
+            let k = rng.below(n as u64) as usize;
+            segs[k].start = 0;
+        }
+        2 => {
+            let k = rng.below(n as u64) as usize;
+            let s = &mut segs[k];
+            std::mem::swap(&mut s.start, &mut s.end);
+        }
+        _ => {}
+    }
+    let x2 = match rng.below(10) {
+        0 => Some(2 * n as u16 + 1),
+        1 => Some(2 * n as u16 - 1),
+        _ => None,
+    };
+    let mut b = cmap4_bytes(&segs, &gids, x2);
+    if rng.chance(1, 4) {
+        b.u8(rng.next() as u8);
+    }
+    b
+}
+
+/// `x2 end start delta rangeOffset glyphs` as the real accessors give them
+fn tok4(t: &Cmap4) -> String {
+    format!(
+        "{} {} {} {} {} {}",
+        t.seg_count_x2(),
+        commas(t.end_code().iter().map(|x| x.get())),
+        commas(t.start_code().iter().map(|x| x.get())),
+        commas(t.id_delta().iter().map(|x| x.get())),
+        commas(t.id_range_offsets().iter().map(|x| x.get())),
+        commas(t.glyph_id_array().iter().map(|x| x.get()))
+    )
+}
+
+fn cps4(t: &Cmap4) -> Vec<u32> {
+    let mut vals = vec![];
+    for (s, e) in t.start_code().iter().zip(t.end_code().iter()).take(12) {
+        let (s, e) = (s.get() as u64, e.get() as u64);
+        vals.extend([s, e, (s + e) / 2]);
+    }
+    edge32(&vals)
+}
+
+fn case4(ctx: &mut Ctx, bytes: &[u8]) {
+    let mut stats: Vec<&'static str> = vec![];
+    ask(ctx, "map4", bytes, || {
+        let t = match Cmap4::read(FontData::new(bytes)) {
+            Ok(t) => t,
+            Err(_) => {
+                stats.push("map4.read-err");
+                return None;
+            }
+        };
+        let cps = cps4(&t);
+        let resp: Vec<String> = cps
+            .iter()
+            .map(|c| {
+                let g = t.map_codepoint(*c);
+                // branch statistics: which way the containing segment (if any) answers
+                let seg = t.start_code().iter().zip(t.end_code().iter()).position(|(s, e)| s.get() as u32 <= *c && *c <= e.get() as u32);
+                stats.push(match (seg, g) {
+                    _ if *c > 0xFFFF => "map4.cp>0xffff",
+                    (None, _) => "map4.no-segment",
+                    (Some(i), Some(_)) if t.id_range_offsets()[i].get() == 0 => "map4.hit.delta",
+                    (Some(_), Some(_)) => "map4.hit.glyph-array",
+                    (Some(i), None) if t.id_range_offsets()[i].get() == 0 => "map4.segment-not-found(unsorted)",
+                    (Some(_), None) => "map4.none.glyph-array(0/outside/unsorted)",
+                });
+                gid_str(g)
+            })
+            .collect();
+        Some((format!("ht.map4 {} | {}", tok4(&t), join(&cps)), join(&resp)))
+    });
+    for s in stats {
+        ctx.count(s);
+    }
+}
+
+// ------------------------------------------------------------------------------------------------
+// format 12
+
+fn cmap12_bytes(format: u16, groups: &[(u32, u32, u32)], num_groups: Option<u32>) -> B {
+    let mut b = B::new();
+    b.u16(format).u16(0).u32(16 + 12 * groups.len() as u32).u32(0).f32(num_groups.unwrap_or(groups.len() as u32));
+    for (s, e, g) in groups {
+        b.f32(*s).f32(*e).f32(*g);
+    }
+    b
+}
+
+fn gen_groups(rng: &mut Rng) -> Vec<(u32, u32, u32)> {
+    let n = rng.below(7) as usize;
+    let mut groups = vec![];
+    let mut cur = match rng.below(4) {
+        0 => 0x10FFF0,
+        1 => 0xFFF0,
+        _ => rng.below(100) as u32,
+    };
+    for _ in 0..n {
+        let end = cur + rng.below(30) as u32;
+        let gid = match rng.below(6) {
+            0 => 0xFFFF - rng.below(12) as u32,
+            1 => u32::MAX - rng.below(12) as u32,
+            2 => 290 + rng.below(12) as u32,
+            _ => rng.below(60) as u32,
+        };
+        groups.push((cur, end, gid));
+        cur = end + 1 + rng.below(10) as u32;
+    }
+    match rng.below(8) {
+        0 => rng.shuffle(&mut groups),
+        1 if n > 0 => {
+            let k = rng.below(n as u64) as usize;
+            groups[k].0 = groups[0].0;
+        }
+        2 if n > 0 => {
+            let k = rng.below(n as u64) as usize;
+            groups[k] = (groups[k].1, groups[k].0, groups[k].2);
+        }
+        3 if n > 1 => groups[n - 1].1 = groups[0].0,
+        4 if n > 0 => groups[n - 1].1 = u32::MAX.min(groups[n - 1].0 + 40),
+        5 if n > 0 => groups[n - 1] = (u32::MAX - 3, u32::MAX, u32::MAX - 1),
+        _ => {}
+    }
+    groups
+}
+
+fn tok12(t: &Cmap12) -> String {
+    let v: Vec<u32> = t.groups().iter().flat_map(|g| [g.start_char_code(), g.end_char_code(), g.start_glyph_id()]).collect();
+    join(&v)
+}
+
+fn cps12(t: &Cmap12) -> Vec<u32> {
+    let mut vals = vec![];
+    for g in t.groups().iter().take(12) {
+        let (s, e) = (g.start_char_code() as u64, g.end_char_code() as u64);
+        vals.extend([s, e, (s + e) / 2]);
+    }
+    edge32(&vals)
+}
+
+fn case12(ctx: &mut Ctx, bytes: &[u8]) {
+    let mut stats: Vec<&'static str> = vec![];
+    ask(ctx, "map12", bytes, || {
+        let t = match Cmap12::read(FontData::new(bytes)) {
+            Ok(t) => t,
+            Err(_) => {
+                stats.push("map12.read-err");
+                return None;
+            }
+        };
+        let cps = cps12(&t);
+        let resp: Vec<String> = cps
+            .iter()
+            .map(|c| {
+                let g = t.map_codepoint(*c);
+                let seg = t.groups().iter().any(|g| g.start_char_code() <= *c && *c <= g.end_char_code());
+                stats.push(match (seg, g) {
+                    (false, _) => "map12.no-group",
+                    (true, Some(_)) => "map12.hit",
+                    (true, None) => "map12.group-not-found(unsorted)",
+                });
+                gid_str(g)
+            })
+            .collect();
+        Some((format!("ht.map12 {} | {}", tok12(&t), join(&cps)), join(&resp)))
+    });
+    for s in stats {
+        ctx.count(s);
+    }
+}
+
+// ------------------------------------------------------------------------------------------------
+// format 14
+
+#[derive(Clone, Default)]
+struct Sel {
+    selector: u32,
+    default: Option<Vec<(u32, u8)>>,
+    non_default: Option<Vec<(u32, u16)>>,
+}
+
+fn cmap14_bytes(rng: &mut Rng, sels: &[Sel], hostile_offsets: bool) -> B {
+    let mut b = B::new();
+    b.u16(14).u32(0).f32(sels.len() as u32);
+    for s in sels {
+        b.f24(s.selector).f32(0).f32(0);
+    }
+    for (i, s) in sels.iter().enumerate() {
+        if let Some(d) = &s.default {
+            let at = b.len() as u32;
+            b.set32(10 + 11 * i + 3, at);
+            b.f32(d.len() as u32);
+            for (st, add) in d {
+                b.f24(*st).f8(*add);
+            }
+        }
+        if let Some(nd) = &s.non_default {
+            let at = b.len() as u32;
+            b.set32(10 + 11 * i + 7, at);
+            b.f32(nd.len() as u32);
+            for (u, g) in nd {
+                b.f24(*u).u16(*g);
+            }
+        }
+    }
+    let len = b.len() as u32;
+    b.set32(2, len);
+    if hostile_offsets && !sels.is_empty() {
+        let i = rng.below(sels.len() as u64) as usize;
+        let which = 3 + 4 * rng.below(2) as usize;
+        let v = match rng.below(6) {
+            0 => len,
+            1 => len - 1,
+            2 => len - 4,
+            3 => 10 + 11 * i as u32,
+            4 => 6,
+            _ => u32::MAX,
+        };
+        b.set32(10 + 11 * i + which, v);
+    }
+    b
+}
+
+fn gen_sels(rng: &mut Rng) -> Vec<Sel> {
+    let n = rng.below(4) as usize;
+    let mut sels = vec![];
+    let mut s = *rng.pick(&[0xFE00u32, 0xE0100, 0, 0xFFFFF0]);
+    for _ in 0..n {
+        let default = if rng.chance(2, 3) {
+            let k = rng.below(4) as usize;
+            let mut v = vec![];
+            let mut cur = *rng.pick(&[0x30u32, 0x4E00, 0x10FF00, 0xFFFF00, 0xFFFFF0]);
+            for _ in 0..k {
+                let add = match rng.below(5) {
+                    0 => 0,
+                    1 => 255,
+                    _ => rng.below(12) as u8,
+                };
+                v.push((cur.min(0xFFFFFF), add));
+                cur = cur + add as u32 + 1 + rng.below(8) as u32;
+            }
+            if rng.chance(1, 6) {
+                rng.shuffle(&mut v);
+            }
+            if rng.chance(1, 6) && k > 0 {
+                v[k - 1] = (0xFFFFFF, 255);
+            }
+            Some(v)
+        } else {
+            None
+        };
+        let non_default = if rng.chance(2, 3) {
+            let k = rng.below(5) as usize;
+            let mut v = vec![];
+            let mut cur = *rng.pick(&[0x28u32, 0x4E00, 0xFFFFF0]);
+            for _ in 0..k {
+                v.push((cur.min(0xFFFFFF), rng.below(400) as u16));
+                cur += 1 + rng.below(9) as u32;
+            }
+            if rng.chance(1, 6) {
+                rng.shuffle(&mut v);
+            }
+            Some(v)
+        } else {
+            None
+        };
+        sels.push(Sel { selector: s.min(0xFFFFFF), default, non_default });
+        s += 1 + rng.below(3) as u32;
+    }
+    match rng.below(8) {
+        0 => rng.shuffle(&mut sels),
+        1 if n > 1 => sels[1].selector = sels[0].selector,
+        _ => {}
+    }
+    sels
+}
+
+/// one selector record as the hand-written code sees it (both `None` and `Some(Err)` = absent)
+struct Rec14 {
+    selector: u32,
+    defaults: Option<Vec<(u32, u8)>>,
+    non_defaults: Option<Vec<(u32, u16)>>,
+}
+
+fn rec14(r: &VariationSelector, data: FontData) -> Rec14 {
+    let defaults = match r.default_uvs(data) {
+        Some(Ok(d)) => Some(d.ranges().iter().map(|x| (x.start_unicode_value().to_u32(), x.additional_count())).collect()),
+        _ => None,
+    };
+    let non_defaults = match r.non_default_uvs(data) {
+        Some(Ok(d)) => Some(d.uvs_mapping().iter().map(|x| (x.unicode_value().to_u32(), x.glyph_id())).collect()),
+        _ => None,
+    };
+    Rec14 { selector: r.var_selector().to_u32(), defaults, non_defaults }
+}
+
+fn recs14(t: &Cmap14) -> Vec<Rec14> {
+    t.var_selector().iter().map(|r| rec14(r, t.offset_data())).collect()
+}
+
+fn tok14(recs: &[Rec14]) -> String {
+    if recs.is_empty() {
+        return "-".into();
+    }
+    recs.iter()
+        .map(|r| {
+            let d = match &r.defaults {
+                None => "x".to_string(),
+                Some(v) => commas(v.iter().flat_map(|(a, c)| [*a, *c as u32])),
+            };
+            let n = match &r.non_defaults {
+                None => "x".to_string(),
+                Some(v) => commas(v.iter().flat_map(|(a, g)| [*a, *g as u32])),
+            };
+            format!("{} {} {}", r.selector, d, n)
+        })
+        .collect::<Vec<_>>()
+        .join(" ")
+}
+
+fn total14(recs: &[Rec14]) -> u64 {
+    recs.iter().map(|r| r.defaults.iter().flatten().map(|x| x.1 as u64 + 1).sum::<u64>() + r.non_defaults.as_ref().map(|n| n.len() as u64).unwrap_or(0)).sum()
+}
+
+fn args14(recs: &[Rec14]) -> (Vec<u32>, Vec<u32>) {
+    let mut sels = vec![];
+    let mut cps = vec![];
+    for r in recs.iter().take(6) {
+        sels.push(r.selector as u64);
+        for (a, c) in r.defaults.iter().flatten().take(5) {
+            cps.push(*a as u64);
+            cps.push(*a as u64 + *c as u64);
+        }
+        for (u, _) in r.non_defaults.iter().flatten().take(5) {
+            cps.push(*u as u64);
+        }
+    }
+    let mut s = edge32(&sels);
+    s.retain(|s| [0, 0xFFFFFF, 0x1000000].contains(s) || recs.iter().any(|r| (r.selector as i64 - *s as i64).abs() <= 1));
+    let mut c = edge32(&cps);
+    c.retain(|c| [0, 0x10FFFF, 0xFFFFFF, 0x1000000, u32::MAX].contains(c) || cps.iter().any(|x| (*x as i64 - *c as i64).abs() <= 1));
+    (s, c)
+}
+
+fn mv_str(v: Option<MapVariant>) -> String {
+    match v {
+        None => "n".into(),
+        Some(MapVariant::UseDefault) => "d".into(),
+        Some(MapVariant::Variant(g)) => format!("v{}", g.to_u32()),
+    }
+}
+
+/// cases of one readable format 14 subtable: `map_variant`, the iterator, `closure_glyphs`
+fn cases14(ctx: &mut Ctx, bytes: &[u8]) {
+    let t = match catch(|| Cmap14::read(FontData::new(bytes))) {
+        Ok(Ok(t)) => t,
+        Ok(Err(_)) => {
+            ctx.count("cmap14.read-err");
+            return;
+        }
+        Err(m) => {
+            ctx.oracle("no-panic", false, || format!("Cmap14::read {}", hex(bytes)), || m.clone());
+            return;
+        }
+    };
+    let recs = match catch(|| recs14(&t)) {
+        Ok(r) => r,
+        Err(m) => {
+            ctx.oracle("no-panic", false, || format!("cmap14 records {}", hex(bytes)), || m.clone());
+            return;
+        }
+    };
+    let tok = tok14(&recs);
+    let (sels, cps) = args14(&recs);
+    let mut stats: Vec<&'static str> = vec![];
+    ask(ctx, "map_variant", bytes, || {
+        let mut resp = vec![];
+        for s in &sels {
+            for c in &cps {
+                let r = t.map_variant(*c, *s);
+                stats.push(match r {
+                    None => "mv14.none",
+                    Some(MapVariant::UseDefault) => "mv14.use-default",
+                    Some(MapVariant::Variant(_)) => "mv14.variant",
+                });
+                resp.push(mv_str(r));
+            }
+        }
+        Some((format!("ht.mv14 {} | {} | {}", tok, join(&sels), join(&cps)), join(&resp)))
+    });
+    for s in stats {
+        ctx.count(s);
+    }
+    // the iterator: digest + count, and the model independent bound Σ(additional_count + 1) + #mappings
+    let total = total14(&recs);
+    if total <= 60_000 {
+        let mut over = None;
+        let mut bad_item = None;
+        ask(ctx, "Cmap14::iter", bytes, || {
+            let mut sm = Summary::new();
+            for (c, s, v) in t.iter() {
+                if sm.n > total {
+                    over = Some(sm.n);
+                    break;
+                }
+                let code = match v {
+                    MapVariant::UseDefault => 1,
+                    MapVariant::Variant(g) => 2 + g.to_u32() as u64,
+                };
+                // every item comes from a record with that selector: a default range containing it / a mapping
+                let ok = recs.iter().any(|r| {
+                    r.selector == s
+                        && match v {
+                            MapVariant::UseDefault => r.defaults.iter().flatten().any(|(a, k)| *a <= c && c <= *a + *k as u32),
+                            MapVariant::Variant(g) => r.non_defaults.iter().flatten().any(|(u, gg)| *u == c && *gg as u32 == g.to_u32()),
+                        }
+                });
+                if !ok && bad_item.is_none() {
+                    bad_item = Some((c, s, code));
+                }
+                sm.row(&[c as u64, s as u64, code]);
+            }
+            Some((format!("ht.it14 {}", tok), sm.render()))
+        });
+        ctx.oracle("cmap14.iter-bounded", over.is_none(), || format!("Cmap14::iter {}", hex(bytes)), || format!("more than {total} items"));
+        ctx.oracle("cmap14.item-from-record", bad_item.is_none(), || format!("Cmap14::iter {}", hex(bytes)), || format!("item {bad_item:?} is in no record"));
+        ctx.count(if total == 0 { "it14.empty" } else if total > 2000 { "it14.big" } else { "it14.small" });
+        if recs.iter().any(|r| r.defaults.is_some() && r.non_defaults.is_some()) {
+            ctx.count("it14.record-with-both-tables");
+        }
+        if recs.iter().any(|r| r.defaults.is_none() && r.non_defaults.is_none()) {
+            ctx.count("it14.record-with-no-table");
+        }
+    } else {
+        ctx.count("it14.skipped-too-big");
+    }
+    // closure
+    let mut us: Vec<u32> = sels.iter().chain(cps.iter()).copied().collect();
+    if ctx.rng.chance(1, 2) {
+        // drop some so that both filters have something to reject
+        us.retain(|_| ctx.rng.chance(2, 3));
+    }
+    us.sort();
+    us.dedup();
+    let n_map: u64 = recs.iter().map(|r| r.non_defaults.as_ref().map(|n| n.len() as u64).unwrap_or(0)).sum();
+    let mut too_many = None;
+    let mut nonempty = false;
+    ask(ctx, "Cmap14::closure_glyphs", bytes, || {
+        let mut unicodes: IntSet<u32> = IntSet::empty();
+        for u in &us {
+            unicodes.insert(*u);
+        }
+        let mut glyphs: IntSet<GlyphId> = IntSet::empty();
+        t.closure_glyphs(&unicodes, &mut glyphs);
+        if glyphs.len() > n_map {
+            too_many = Some(glyphs.len());
+        }
+        nonempty = !glyphs.is_empty();
+        let g: Vec<u32> = glyphs.iter().map(|g| g.to_u32()).collect();
+        Some((format!("ht.clo14 {} | {}", tok, join(&us)), join(&g)))
+    });
+    ctx.oracle("cmap14.closure-bounded", too_many.is_none(), || format!("Cmap14::closure_glyphs {}", hex(bytes)), || format!("{too_many:?} glyphs for {n_map} mappings"));
+    ctx.count(if nonempty { "clo14.some" } else { "clo14.empty" });
+}
+
+// ------------------------------------------------------------------------------------------------
+// the whole table: `Cmap::map_codepoint`, `Cmap::closure_glyphs`
+
+fn other_subtable(rng: &mut Rng, format: u16) -> B {
+    let mut b = B::new();
+    match format {
+        6 => {
+            let n = rng.below(6) as u16;
+            b.u16(6).u16(10 + 2 * n).u16(1).u16(0x20).u16(n);
+            b.bytes(&rng.bytes(2 * n as usize));
+        }
+        10 => {
+            let n = rng.below(6) as u32;
+            b.u16(10).u16(0).u32(20 + 2 * n).u32(3).u32(0x1F600).u32(n);
+            b.bytes(&rng.bytes(2 * n as usize));
+        }
+        0 => {
+            b.u16(0).u16(262).u16(7);
+            b.bytes(&rng.bytes(256));
+        }
+        _ => {
+            let g = gen_groups(rng);
+            return cmap12_bytes(13, &g, None);
+        }
+    }
+    b
+}
+
+fn cmap_table(subs: &[(u16, u16, usize)], tables: &[B]) -> B {
+    let mut b = B::new();
+    b.u16(0).f16(subs.len() as u16);
+    for (p, e, _) in subs {
+        b.u16(*p).u16(*e).f32(0);
+    }
+    let mut at = vec![];
+    for t in tables {
+        at.push(b.len());
+        // only the table's own count fields stay registered (keeps the variant count down)
+        let keep: Vec<(usize, u8)> = t.fields.iter().take(2).copied().collect();
+        let start = b.len();
+        b.bytes(&t.v);
+        for (p, w) in keep {
+            b.mark(start + p, w);
+        }
+    }
+    for (k, (_, _, which)) in subs.iter().enumerate() {
+        if let Some(a) = at.get(*which) {
+            b.set32(4 + 8 * k + 4, *a as u32);
+        }
+    }
+    b
+}
+
+fn case_cmap(ctx: &mut Ctx, bytes: &[u8]) {
+    let cmap = match catch(|| Cmap::read(FontData::new(bytes))) {
+        Ok(Ok(t)) => t,
+        Ok(Err(_)) => {
+            ctx.count("cmap.read-err");
+            return;
+        }
+        Err(m) => {
+            ctx.oracle("no-panic", false, || format!("Cmap::read {}", hex(bytes)), || m.clone());
+            return;
+        }
+    };
+    let mut stats: Vec<String> = vec![];
+    let mut closure_req: Option<(String, Vec<u32>)> = None;
+    ask(ctx, "Cmap::map_codepoint", bytes, || {
+        let mut toks = vec![];
+        let mut clo = vec![];
+        let mut vals: Vec<u64> = vec![0x41];
+        let mut us: Vec<u32> = vec![];
+        for rec in cmap.encoding_records().iter() {
+            match rec.subtable(cmap.offset_data()) {
+                Ok(CmapSubtable::Format4(t)) => {
+                    toks.push(format!("4 {}", tok4(&t)));
+                    vals.extend(cps4(&t).iter().take(24).map(|x| *x as u64));
+                    clo.push("x".to_string());
+                    stats.push("cmap.sub.format4".into());
+                }
+                Ok(CmapSubtable::Format12(t)) => {
+                    toks.push(format!("12 {}", tok12(&t)));
+                    vals.extend(cps12(&t).iter().take(24).map(|x| *x as u64));
+                    clo.push("x".to_string());
+                    stats.push("cmap.sub.format12".into());
+                }
+                Ok(CmapSubtable::Format14(t)) => {
+                    toks.push("o".into());
+                    let recs = recs14(&t);
+                    let (s, c) = args14(&recs);
+                    us.extend(s);
+                    us.extend(c);
+                    clo.push(tok14(&recs));
+                    stats.push("cmap.sub.format14".into());
+                }
+                Ok(_) => {
+                    toks.push("o".into());
+                    clo.push("x".to_string());
+                    stats.push("cmap.sub.other".into());
+                }
+                Err(_) => {
+                    toks.push("e".into());
+                    clo.push("x".to_string());
+                    stats.push("cmap.sub.err".into());
+                }
+            }
+        }
+        vals.sort();
+        vals.dedup();
+        let cps: Vec<u32> = vals.iter().map(|x| *x as u32).collect();
+        let mut first_answers = [0u32; 4];
+        let resp: Vec<String> = cps
+            .iter()
+            .map(|c| {
+                let g = cmap.map_codepoint(*c);
+                // which record answered (statistics)
+                let k = cmap.encoding_records().iter().position(|r| match r.subtable(cmap.offset_data()) {
+                    Ok(CmapSubtable::Format4(t)) => t.map_codepoint(*c).is_some(),
+                    Ok(CmapSubtable::Format12(t)) => t.map_codepoint(*c).is_some(),
+                    _ => false,
+                });
+                first_answers[k.map(|k| k.min(2) + 1).unwrap_or(0)] += 1;
+                gid_str(g)
+            })
+            .collect();
+        for (k, n) in first_answers.iter().enumerate() {
+            for _ in 0..*n {
+                stats.push(["cmap.map.none", "cmap.map.record0", "cmap.map.record1", "cmap.map.record2+"][k].into());
+            }
+        }
+        us.sort();
+        us.dedup();
+        let mut req = format!("ht.cmap {}", join(&cps));
+        for t in &toks {
+            req.push_str(" | ");
+            req.push_str(t);
+        }
+        let mut creq = format!("ht.cmapclo {}", join(&us));
+        for t in &clo {
+            creq.push_str(" | ");
+            creq.push_str(t);
+        }
+        closure_req = Some((creq, us));
+        Some((req, join(&resp)))
+    });
+    for s in stats {
+        ctx.count(&s);
+    }
+    if let Some((creq, us)) = closure_req {
+        let mut nonempty = false;
+        ask(ctx, "Cmap::closure_glyphs", bytes, || {
+            let mut unicodes: IntSet<u32> = IntSet::empty();
+            for u in &us {
+                unicodes.insert(*u);
+            }
+            let mut glyphs: IntSet<GlyphId> = IntSet::empty();
+            cmap.closure_glyphs(&unicodes, &mut glyphs);
+            nonempty = !glyphs.is_empty();
+            let g: Vec<u32> = glyphs.iter().map(|g| g.to_u32()).collect();
+            Some((creq, join(&g)))
+        });
+        ctx.count(if nonempty { "cmapclo.some" } else { "cmapclo.empty" });
+    }
+}
+
+// ------------------------------------------------------------------------------------------------
+// name
+
+#[derive(Clone, Copy)]
+struct NameRec {
+    pid: u16,
+    eid: u16,
+    len: u16,
+    off: u16,
+}
+
+fn name_bytes(version: u16, recs: &[NameRec], langs: &[(u16, u16)], storage: &[u8], storage_offset: Option<u16>) -> B {
+    let mut b = B::new();
+    b.u16(version).f16(recs.len() as u16).f16(0);
+    for (i, r) in recs.iter().enumerate() {
+        b.u16(r.pid).u16(r.eid).u16(0x409).u16(i as u16).f16(r.len).f16(r.off);
+    }
+    if version >= 1 {
+        b.f16(langs.len() as u16);
+        for (l, o) in langs {
+            b.f16(*l).f16(*o);
+        }
+    }
+    let so = storage_offset.unwrap_or(b.len() as u16);
+    b.set16(4, so);
+    b.bytes(storage);
+    b
+}
+
+const PAIRS: [(u16, u16); 16] = [(0, 0), (0, 3), (0, 4), (0, 0xFFFF), (1, 0), (1, 1), (1, 0xFFFF), (2, 0), (2, 1), (3, 0), (3, 1), (3, 10), (3, 2), (3, 9), (4, 0), (0xFFFF, 0xFFFF)];
+
+fn utf16_payload(rng: &mut Rng, n_units: usize) -> Vec<u8> {
+    let mut v = vec![];
+    for _ in 0..n_units {
+        let u: u16 = match rng.below(8) {
+            0 => 0xD800 + rng.below(0x400) as u16,
+            1 => 0xDC00 + rng.below(0x400) as u16,
+            2 => *rng.pick(&[0xD7FFu16, 0xD800, 0xDBFF, 0xDC00, 0xDFFF, 0xE000, 0xFFFE, 0xFFFF, 0]),
+            3 => 0x80 + rng.below(0x80) as u16 | ((rng.below(0x80) as u16 + 0x80) << 8),
+            _ => 0x20 + rng.below(0x60) as u16,
+        };
+        v.extend_from_slice(&u.to_be_bytes());
+    }
+    v
+}
+
+fn enc_char(e: Encoding) -> char {
+    match e {
+        Encoding::Utf16Be => 'u',
+        Encoding::MacRoman => 'm',
+        Encoding::Unknown => 'x',
+    }
+}
+
+/// one `NameString` against the model + the CharIter oracles
+#[allow(clippy::too_many_arguments)]
+fn name_string_case(ctx: &mut Ctx, bytes: &[u8], storage: &[u8], pid: u16, eid: u16, off: u16, len: u16, r: Result<read_fonts::tables::name::NameString, ReadError>) {
+    let req = format!("ht.name {} {} {} {} {}", pid, eid, off, len, hex(storage));
+    match r {
+        Err(e) => {
+            ctx.oracle("name.error-kind", matches!(e, ReadError::OutOfBounds), || format!("{req} in {}", hex(bytes)), || format!("{e:?}"));
+            ctx.count("name.string.oob");
+            ctx.case(req, "oob".into());
+        }
+        Ok(s) => {
+            let enc = Encoding::new(pid, eid);
+            let cap = match enc {
+                Encoding::Utf16Be => len as usize / 2,
+                Encoding::MacRoman => len as usize,
+                Encoding::Unknown => 0,
+            };
+            let chars: Vec<u32> = s.chars().take(cap + 2).map(|c| c as u32).collect();
+            ctx.oracle("name.chars-bounded", chars.len() <= cap, || format!("{req} in {}", hex(bytes)), || format!("{} chars from {} bytes ({})", chars.len(), len, enc_char(enc)));
+            if chars.len() <= cap {
+                // `Display` walks the same iterator
+                let shown: Vec<u32> = s.to_string().chars().map(|c| c as u32).collect();
+                ctx.oracle("name.display-is-chars", shown == chars, || format!("{req} in {}", hex(bytes)), || format!("{shown:?} vs {chars:?}"));
+                let again: Vec<u32> = s.into_iter().map(|c| c as u32).collect();
+                ctx.oracle("name.into-iter-is-chars", again == chars, || format!("{req} in {}", hex(bytes)), || format!("{again:?} vs {chars:?}"));
+            }
+            let start = off as usize;
+            ctx.count(match enc {
+                Encoding::Utf16Be if len % 2 == 1 => "name.string.utf16.odd",
+                Encoding::Utf16Be if chars.contains(&0xFFFD) => "name.string.utf16.replacement",
+                Encoding::Utf16Be if chars.iter().any(|c| *c >= 0x10000) => "name.string.utf16.pair",
+                Encoding::Utf16Be => "name.string.utf16.plain",
+                Encoding::MacRoman if chars.iter().any(|c| *c >= 128) => "name.string.mac.high",
+                Encoding::MacRoman => "name.string.mac.ascii",
+                Encoding::Unknown => "name.string.unknown",
+            });
+            ctx.case(req, format!("{}:{} {} {}", start, start + len as usize, enc_char(enc), join(&chars)));
+        }
+    }
+}
+
+fn case_name(ctx: &mut Ctx, bytes: &[u8]) {
+    let name = match catch(|| Name::read(FontData::new(bytes))) {
+        Ok(Ok(t)) => t,
+        Ok(Err(_)) => {
+            ctx.count("name.read-err");
+            return;
+        }
+        Err(m) => {
+            ctx.oracle("no-panic", false, || format!("Name::read {}", hex(bytes)), || m.clone());
+            return;
+        }
+    };
+    PROGRESS.fetch_add(1, Ordering::Relaxed);
+    let r = catch(|| {
+        let sd = name.string_data();
+        let storage = sd.as_bytes().to_vec();
+        let mut out = vec![];
+        for rec in name.name_record().iter().take(8) {
+            out.push((rec.platform_id(), rec.encoding_id(), rec.string_offset().to_u32() as u16, rec.length(), rec.string(sd)));
+        }
+        for rec in name.lang_tag_record().iter().flat_map(|t| t.iter()).take(4) {
+            // `lang_tag` always decodes UTF-16BE = what platform 0 selects
+            out.push((0, 0, rec.lang_tag_offset().to_u32() as u16, rec.length(), rec.lang_tag(sd)));
+        }
+        (storage, name.storage_offset(), out)
+    });
+    match r {
+        Err(m) => ctx.oracle("no-panic", false, || format!("name strings {}", hex(bytes)), || m.clone()),
+        Ok((storage, so, recs)) => {
+            ctx.oracle("no-panic", true, String::new, String::new);
+            ctx.oracle("name.storage-in-data", storage.len() <= bytes.len(), || hex(bytes), || format!("{} storage bytes", storage.len()));
+            ctx.count(if so as usize > bytes.len() { "name.sdata.offset-past-end" } else { "name.sdata.inside" });
+            ctx.case(format!("ht.sdata {} {}", bytes.len(), so), storage.len().to_string());
+            for (pid, eid, off, len, r) in recs {
+                name_string_case(ctx, bytes, &storage, pid, eid, off, len, r);
+            }
+        }
+    }
+}
+
+// ------------------------------------------------------------------------------------------------
+// post
+
+#[derive(Clone, Default)]
+struct PostSpec {
+    version: u32,
+    num_glyphs: u16,
+    idx: Vec<u16>,
+    strings: Vec<(u8, Vec<u8>)>,
+    tail: Vec<u8>,
+}
+
+fn post_bytes(s: &PostSpec) -> B {
+    let mut b = B::new();
+    b.f32(s.version).u32(0xFFF4_0000).i16(-100).i16(50).u32(0).u32(0).u32(0).u32(0).u32(0);
+    if s.version >> 16 == 2 {
+        b.f16(s.num_glyphs);
+        for i in &s.idx {
+            b.f16(*i);
+        }
+        for (l, p) in &s.strings {
+            b.f8(*l).bytes(p);
+        }
+    }
+    b.bytes(&s.tail);
+    b
+}
+
+fn be16(b: &[u8], p: usize) -> Option<u16> {
+    Some(u16::from_be_bytes([*b.get(p)?, *b.get(p + 1)?]))
+}
+
+fn post_gids(b: &[u8]) -> Vec<u16> {
+    let n = be16(b, 32).unwrap_or(0) as u32;
+    let mut g = edge16(&[n, 257, 258, 259]);
+    g.retain(|x| *x < 12 || (*x as u32).abs_diff(n) <= 1 || [257, 258, 259, 0x7FFF, 0xFFFF].contains(x));
+    g.extend(0..n.min(10) as u16);
+    g.sort();
+    g.dedup();
+    g
+}
+
+fn case_post(ctx: &mut Ctx, bytes: &[u8]) {
+    let mut stats: Vec<&'static str> = vec![];
+    let mut bad_name = None;
+    ask(ctx, "Post::glyph_name", bytes, || {
+        let gids = post_gids(bytes);
+        let req = format!("ht.post {} | {}", hex(bytes), join(&gids));
+        let post = match Post::read(FontData::new(bytes)) {
+            Ok(p) => p,
+            Err(_) => {
+                stats.push("post.read-err");
+                return Some((req, "err".into()));
+            }
+        };
+        let lo = bytes.as_ptr() as usize;
+        let hi = lo + bytes.len();
+        let mut resp = vec![post.num_names().to_string()];
+        for g in &gids {
+            resp.push(match post.glyph_name(GlyphId16::new(*g)) {
+                None => {
+                    stats.push("post.name.none");
+                    "n".into()
+                }
+                Some(s) => {
+                    let p = s.as_ptr() as usize;
+                    if let Some(i) = DEFAULT_GLYPH_NAMES.iter().position(|d| d.as_ptr() == s.as_ptr() && d.len() == s.len()) {
+                        stats.push("post.name.standard");
+                        format!("s{i}")
+                    } else {
+                        // a custom name is a slice of the table's own bytes
+                        if !(lo <= p && p + s.len() <= hi) && bad_name.is_none() {
+                            bad_name = Some(*g);
+                        }
+                        stats.push("post.name.custom");
+                        format!("x{}", hex(s.as_bytes()))
+                    }
+                }
+            });
+        }
+        Some((req, resp.join(" ")))
+    });
+    ctx.oracle("post.name-inside-table", bad_name.is_none(), || format!("Post::glyph_name {}", hex(bytes)), || format!("glyph {bad_name:?}: the name is neither a standard name nor a slice of the table"));
+    for s in stats {
+        ctx.count(s);
+    }
+}
+
+fn case_pstr(ctx: &mut Ctx, bytes: &[u8]) {
+    let mut stat = "";
+    ask(ctx, "PString::read", bytes, || {
+        let r = match PString::read(FontData::new(bytes)) {
+            Ok(s) => {
+                stat = "pstr.ok";
+                format!("x{}", hex(s.as_str().as_bytes()))
+            }
+            Err(ReadError::OutOfBounds) => {
+                stat = "pstr.oob";
+                "eO".into()
+            }
+            Err(ReadError::MalformedData(_)) => {
+                stat = "pstr.malformed";
+                "eM".into()
+            }
+            Err(e) => format!("unexpected {e:?}"),
+        };
+        Some((format!("ht.pstr {}", hex(bytes)), r))
+    });
+    ctx.count(stat);
+}
+
+// ------------------------------------------------------------------------------------------------
+
+pub fn run(ctx: &mut Ctx) {
+    let k = if ctx.thorough { 5 } else { 1 };
+
+    // ---- cmap format 4
+    for _ in 0..10 * k {
+        let b = gen_cmap4(&mut ctx.rng);
+        for v in vars(&b, 400) {
+            case4(ctx, &v);
+        }
+        ctx.count("gen.cmap4");
+    }
+    // idRangeOffset arithmetic at the glyph array ends
+    for n in 1..=2usize {
+        for g in 0..=2usize {
+            for i in 0..n {
+                for ro in 0..=(2 * (n - i) + 2 * g + 3) as u16 {
+                    let mut segs: Vec<Seg> = (0..n).map(|k| Seg { start: 10 * k as u16, end: 10 * k as u16 + 2, delta: 0, ro: 0 }).collect();
+                    segs[i].ro = ro;
+                    segs[i].delta = -7;
+                    let gids: Vec<u16> = (0..g as u16).map(|k| 100 + k).collect();
+                    case4(ctx, &cmap4_bytes(&segs, &gids, None).v);
+                }
+            }
+        }
+    }
+    // many segments (depth of the search), sorted and not
+    for round in 0..6 * k {
+        let n = [7usize, 8, 15, 16, 31, 33][round % 6];
+        let mut segs: Vec<Seg> = (0..n).map(|i| Seg { start: (20 * i) as u16, end: (20 * i + ctx.rng.below(19) as usize) as u16, delta: i as i16, ro: 0 }).collect();
+        if round >= 6 {
+            let a = ctx.rng.below(n as u64) as usize;
+            let c = ctx.rng.below(n as u64) as usize;
+            segs.swap(a, c);
+        }
+        case4(ctx, &cmap4_bytes(&segs, &[], None).v);
+        ctx.count("gen.cmap4.deep");
+    }
+
+    // ---- cmap format 12
+    for _ in 0..14 * k {
+        let g = gen_groups(&mut ctx.rng);
+        let ng = match ctx.rng.below(8) {
+            0 => Some(g.len() as u32 + 1),
+            1 => Some((g.len() as u32).saturating_sub(1)),
+            _ => None,
+        };
+        let b = cmap12_bytes(12, &g, ng);
+        for v in vars(&b, 400) {
+            case12(ctx, &v);
+        }
+        ctx.count("gen.cmap12");
+    }
+    for round in 0..6 * k {
+        let n = [7usize, 8, 15, 16, 31, 33][round % 6];
+        let mut groups: Vec<(u32, u32, u32)> = (0..n).map(|i| (1000 * i as u32, 1000 * i as u32 + ctx.rng.below(999) as u32, 7 * i as u32)).collect();
+        if round >= 6 {
+            let a = ctx.rng.below(n as u64) as usize;
+            let c = ctx.rng.below(n as u64) as usize;
+            groups.swap(a, c);
+        }
+        case12(ctx, &cmap12_bytes(12, &groups, None).v);
+        ctx.count("gen.cmap12.deep");
+    }
+
+    // ---- cmap format 14
+    for round in 0..14 * k {
+        let sels = gen_sels(&mut ctx.rng);
+        let b = cmap14_bytes(&mut ctx.rng, &sels, round % 3 == 0);
+        for v in vars(&b, 160) {
+            cases14(ctx, &v);
+        }
+        ctx.count("gen.cmap14");
+    }
+    // default UVS ranges: additional counts for starts around the u24 / Unicode ends
+    for start in [0u32, 0x10FFFF, 0xFFFF00, 0xFFFFFE, 0xFFFFFF] {
+        for add in [0u8, 1, 0x7F, 0xFE, 0xFF] {
+            let sels = vec![Sel { selector: 0xFE00, default: Some(vec![(start, add), (start, add)]), non_default: Some(vec![(start, 7)]) }];
+            let b = cmap14_bytes(&mut ctx.rng, &sels, false);
+            cases14(ctx, &b.v);
+        }
+    }
+    // many selector records sharing one big default UVS table
+    {
+        let mut b = B::new();
+        let n = 12u32;
+        b.u16(14).u32(0).u32(n);
+        for i in 0..n {
+            b.u24(0xFE00 + i).u32(10 + 11 * n).u32(0);
+        }
+        b.u32(16);
+        for i in 0..16u32 {
+            b.u24(0x1000 * i).u8(0xFF);
+        }
+        cases14(ctx, &b.v);
+    }
+
+    // ---- whole cmap tables
+    for _ in 0..12 * k {
+        let mut tables: Vec<B> = vec![];
+        for _ in 0..1 + ctx.rng.below(3) {
+            let t = match ctx.rng.below(7) {
+                0 | 1 => gen_cmap4(&mut ctx.rng),
+                2 | 3 => {
+                    let g = gen_groups(&mut ctx.rng);
+                    cmap12_bytes(12, &g, None)
+                }
+                4 | 5 => {
+                    let s = gen_sels(&mut ctx.rng);
+                    cmap14_bytes(&mut ctx.rng, &s, false)
+                }
+                _ => {
+                    let f = *ctx.rng.pick(&[0u16, 6, 10, 13]);
+                    other_subtable(&mut ctx.rng, f)
+                }
+            };
+            tables.push(t);
+        }
+        let n_rec = 1 + ctx.rng.below(4) as usize;
+        let subs: Vec<(u16, u16, usize)> = (0..n_rec).map(|_| (*ctx.rng.pick(&[0u16, 1, 3, 4]), *ctx.rng.pick(&[0u16, 1, 3, 4, 5, 10]), ctx.rng.below(tables.len() as u64 + 1) as usize)).collect();
+        let mut b = cmap_table(&subs, &tables);
+        for r in 0..n_rec {
+            b.mark(4 + 8 * r + 4, 4);
+        }
+        for v in vars(&b, 120) {
+            case_cmap(ctx, &v);
+        }
+        ctx.count("gen.cmap");
+    }
+
+    // ---- name: static tables
+    {
+        let all: Vec<u32> = (0..256).collect();
+        let resp: Vec<String> = all.iter().map(|b| catch(|| MacRomanMapping.decode(*b as u8) as u32).map(|c| c.to_string()).unwrap_or("trap".into())).collect();
+        ctx.case(format!("ht.macdec {}", join(&all)), join(&resp));
+        let mut cs: Vec<u32> = vec![0, 0x7F, 0x80, 0x9F, 0xA0, 0xA4, 0xFF, 0x100, 0xFFFF, 0x10000, 0x10FFFF, 0xF8FF, 0xFB02, 0xFB03, 0xD7FF, 0xE000];
+        cs.extend((0..256u32).map(|b| MacRomanMapping.decode(b as u8) as u32));
+        cs.extend((0..256u32).flat_map(|b| {
+            let c = MacRomanMapping.decode(b as u8) as u32;
+            [c.wrapping_sub(1), c + 1]
+        }));
+        cs.extend((0..40 * k).map(|_| ctx.rng.below(0x2800) as u32));
+        cs.retain(|c| char::from_u32(*c).is_some());
+        cs.sort();
+        cs.dedup();
+        for chunk in cs.chunks(64) {
+            let resp: Vec<String> = chunk
+                .iter()
+                .map(|c| match catch(|| MacRomanMapping.encode(char::from_u32(*c).unwrap())) {
+                    Ok(Some(b)) => {
+                        ctx.count("macenc.some");
+                        b.to_string()
+                    }
+                    Ok(None) => {
+                        ctx.count("macenc.none");
+                        "n".into()
+                    }
+                    Err(_) => "trap".into(),
+                })
+                .collect();
+            ctx.case(format!("ht.macenc {}", join(chunk)), join(&resp));
+        }
+        for p in (0..6u16).chain([0x7FFF, 0xFFFF]) {
+            for e in (0..12u16).chain([0x7FFF, 0xFFFF]) {
+                ctx.case(format!("ht.enc {p} {e}"), enc_char(Encoding::new(p, e)).to_string());
+            }
+        }
+    }
+    // ---- name tables
+    for round in 0..14 * k {
+        let version = match round % 5 {
+            0 | 1 => 0,
+            2 | 3 => 1,
+            _ => *ctx.rng.pick(&[2u16, 0xFFFF, 0x100]),
+        };
+        let slen = match ctx.rng.below(5) {
+            0 => 0,
+            1 => 1,
+            _ => 2 + ctx.rng.below(24) as usize,
+        };
+        let mut storage = utf16_payload(&mut ctx.rng, slen / 2);
+        if slen % 2 == 1 {
+            storage.push(ctx.rng.next() as u8);
+        }
+        let n = ctx.rng.below(5) as usize;
+        let slen16 = storage.len() as u16;
+        let span = |rng: &mut Rng| -> (u16, u16) {
+            match rng.below(9) {
+                0 => (slen16, 0),
+                1 => (1, slen16),
+                2 => (slen16, slen16.saturating_sub(slen16 / 2)),
+                3 => (0xFFFF, 0xFFFF),
+                4 => (1, 0xFFFF),
+                5 => (0, slen16 + 1),
+                6 => (slen16, rng.below(3) as u16),
+                _ => {
+                    let off = rng.below(slen16 as u64 + 1) as u16;
+                    let len = rng.below((slen16 - off) as u64 + 1) as u16;
+                    (len, off)
+                }
+            }
+        };
+        let recs: Vec<NameRec> = (0..n)
+            .map(|_| {
+                let (pid, eid) = *ctx.rng.pick(&PAIRS);
+                let (len, off) = span(&mut ctx.rng);
+                NameRec { pid, eid, len, off }
+            })
+            .collect();
+        let langs: Vec<(u16, u16)> = (0..ctx.rng.below(3)).map(|_| span(&mut ctx.rng)).collect();
+        let so = match ctx.rng.below(8) {
+            0 => Some(0),
+            1 => Some(0xFFFF),
+            2 => Some(6),
+            _ => None,
+        };
+        let mut b = name_bytes(version, &recs, &langs, &storage, so);
+        match ctx.rng.below(8) {
+            0 => {
+                let l = b.len() as u16;
+                b.set16(4, l)
+            }
+            1 => {
+                let l = b.len() as u16 + 1;
+                b.set16(4, l)
+            }
+            _ => {}
+        }
+        for v in vars(&b, 200) {
+            case_name(ctx, &v);
+        }
+        ctx.count("gen.name");
+    }
+    // CharIter on payloads from the surrogate boundary set (+ an odd trailing byte), every single byte
+    {
+        const UNITS: [u16; 9] = [0x41, 0xD7FF, 0xD800, 0xDBFF, 0xDC00, 0xDFFF, 0xE000, 0xFFFD, 0xFFFF];
+        let mut payloads: Vec<Vec<u8>> = vec![vec![]];
+        for b in 0..=255u8 {
+            payloads.push(vec![b]);
+        }
+        for a in UNITS {
+            let mut s1 = a.to_be_bytes().to_vec();
+            payloads.push(s1.clone());
+            s1.push(0xD8);
+            payloads.push(s1);
+            for b in UNITS {
+                let mut s2 = [a.to_be_bytes(), b.to_be_bytes()].concat();
+                payloads.push(s2.clone());
+                s2.push(0xDB);
+                payloads.push(s2);
+            }
+        }
+        for a in [0xD800u16, 0xDBFF, 0xDC00, 0x41] {
+            for b in [0xD800u16, 0xDC00, 0xDFFF, 0x41] {
+                for c in [0xDBFFu16, 0xDC00, 0x41] {
+                    payloads.push([a.to_be_bytes(), b.to_be_bytes(), c.to_be_bytes()].concat());
+                }
+            }
+        }
+        for _ in 0..60 * k {
+            let n = ctx.rng.below(9) as usize;
+            let mut p = utf16_payload(&mut ctx.rng, n);
+            if ctx.rng.chance(1, 3) {
+                p.push(ctx.rng.next() as u8);
+            }
+            payloads.push(p);
+        }
+        for (k, p) in payloads.iter().enumerate() {
+            let classes: &[(u16, u16)] = if k % 16 == 0 { &PAIRS } else if p.len() == 1 { &[(1, 0), (3, 1), (2, 0)] } else { &[(0, 3), (3, 10), (1, 0), (3, 2)] };
+            let recs: Vec<NameRec> = classes.iter().map(|(pid, eid)| NameRec { pid: *pid, eid: *eid, len: p.len() as u16, off: 0 }).collect();
+            let b = name_bytes(1, &recs, &[(p.len() as u16, 0)], p, None);
+            case_name(ctx, &b.v);
+        }
+        ctx.count_n("gen.chariter-payloads", payloads.len() as u64);
+    }
+
+    // ---- post
+    const VERSIONS: [u32; 9] = [0x0001_0000, 0x0002_0000, 0x0002_5000, 0x0003_0000, 0x0004_0000, 0x0002_0001, 0x0001_FFFF, 0, 0xFFFF_FFFF];
+    for round in 0..18 * k {
+        let version = if round % 3 != 0 { 0x0002_0000 } else { VERSIONS[(round / 3) % VERSIONS.len()] };
+        let nstr = ctx.rng.below(5) as usize;
+        let mut strings: Vec<(u8, Vec<u8>)> = vec![];
+        for _ in 0..nstr {
+            let l = match ctx.rng.below(6) {
+                0 => 0,
+                1 => 1,
+                _ => ctx.rng.below(9) as usize,
+            };
+            let mut p: Vec<u8> = (0..l).map(|_| b'a' + ctx.rng.below(26) as u8).collect();
+            if l > 0 && ctx.rng.chance(1, 5) {
+                let k = ctx.rng.below(l as u64) as usize;
+                p[k] = *ctx.rng.pick(&[0x80u8, 0xFF, 0xC3, 0x7F, 0]);
+            }
+            strings.push((l as u8, p));
+        }
+        match ctx.rng.below(5) {
+            0 if nstr > 0 => strings[nstr - 1].0 = strings[nstr - 1].0.wrapping_add(1 + ctx.rng.below(3) as u8),
+            1 if nstr > 0 => strings[nstr - 1] = (0xFF, vec![b'x'; ctx.rng.below(3) as usize]),
+            2 => strings.push((ctx.rng.next() as u8, vec![])),
+            _ => {}
+        }
+        let ng = ctx.rng.below(8) as usize;
+        let idx: Vec<u16> = (0..ng)
+            .map(|_| match ctx.rng.below(8) {
+                0 => ctx.rng.below(258) as u16,
+                1 => 257,
+                2 => 258,
+                3 => 258 + nstr as u16,
+                4 => (257 + nstr as u16).max(258),
+                5 => 259 + nstr as u16,
+                6 => 0xFFFF,
+                _ => 258 + ctx.rng.below(nstr as u64 + 1) as u16,
+            })
+            .collect();
+        let num_glyphs = match ctx.rng.below(6) {
+            0 => ng as u16 + 1,
+            1 => (ng as u16).saturating_sub(1),
+            _ => ng as u16,
+        };
+        let spec = PostSpec { version, num_glyphs, idx, strings, tail: if ctx.rng.chance(1, 4) { rbytes(&mut ctx.rng, 4) } else { vec![] } };
+        let b = post_bytes(&spec);
+        for v in vars(&b, 200) {
+            case_post(ctx, &v);
+        }
+        ctx.count(&format!("gen.post.version{:08x}", version));
+    }
+    // pascal strings: length bytes × payload sizes around them, as string 0 and 1, and on their own
+    for l in (0..=255u8).filter(|l| *l < 6 || *l > 250 || [0x7F, 0x80, 0x81].contains(l)) {
+        for have in [0usize, 1, (l as usize).saturating_sub(1), l as usize, l as usize + 1] {
+            for hi in [false, true] {
+                let mut p = vec![b'q'; have];
+                if hi && have > 0 {
+                    p[have - 1] = 0x80;
+                }
+                let spec = PostSpec { version: 0x0002_0000, num_glyphs: 3, idx: vec![258, 259, 260], strings: vec![(1, vec![b'z']), (l, p.clone())], tail: vec![] };
+                case_post(ctx, &post_bytes(&spec).v);
+                let mut own = vec![l];
+                own.extend(&p);
+                case_pstr(ctx, &own);
+            }
+        }
+    }
+    for _ in 0..80 * k {
+        let mut v = rbytes(&mut ctx.rng, 12);
+        if !v.is_empty() && ctx.rng.chance(2, 3) {
+            v[0] = ctx.rng.below(v.len() as u64 + 2) as u8;
+        }
+        if ctx.rng.chance(1, 2) {
+            for x in v.iter_mut().skip(1) {
+                *x &= 0x7F;
+            }
+        }
+        case_pstr(ctx, &v);
+    }
+    // version 1.0: every standard name index around the table end
+    {
+        let b = post_bytes(&PostSpec { version: 0x0001_0000, ..Default::default() });
+        case_post(ctx, &b.v);
+    }
+    // random tails behind a version 2.0 header
+    for _ in 0..60 * k {
+        let mut v = post_bytes(&PostSpec { version: 0x0002_0000, ..Default::default() }).v;
+        v.truncate(32);
+        let n = ctx.rng.below(4) as u16;
+        v.extend_from_slice(&n.to_be_bytes());
+        for _ in 0..n {
+            let i = 256 + ctx.rng.below(8) as u16;
+            v.extend_from_slice(&i.to_be_bytes());
+        }
+        let mut t = rbytes(&mut ctx.rng, 14);
+        for x in t.iter_mut() {
+            if ctx.rng.chance(1, 2) {
+                *x &= 3;
+            }
+        }
+        v.extend(t);
+        case_post(ctx, &v);
+    }
+}
